@@ -154,6 +154,17 @@ def _exec(pv, cfg, ctx, sched):
         except Exception as e:
             raise Violation('exception', f"{tag}: run_on raised {type(e).__name__}: {e}")
         ctx.probe('exec_histories')
+        # "running that controller from each (node, state) pair": the execution starts where it was told to
+        try:
+            first = sid[tr[0].state]
+        except (KeyError, TypeError, AttributeError, IndexError) as e:
+            raise Violation('result-shape', f"{tag}: malformed trajectory: {type(e).__name__}: {e}")
+        if start is not None:
+            ctx.check(first == start, 'execution-start', lambda: f"{tag}: started in state {first}, was asked to start in {start}")
+        else:
+            ctx.check(pv.init.get(first, 0) > 0, 'execution-start', lambda: f"{tag}: sampled start {first} has probability 0")
+        ctx.check(np.allclose(np.asarray(tr[0].agentstate, dtype=float), ini, atol=1e-12), 'execution-start',
+                  lambda: f"{tag}: first agent state {tr[0].agentstate} is not the controller's initial node distribution {ini.tolist()}")
         beta = ini.copy()
         for t, st in enumerate(tr[:-1]):
             ctx.steps += 1
